@@ -1,1 +1,336 @@
-import AkVerif.Lemmas.ColorsConf
+import AkVerif.Lemmas.ColorsConfHist
+/-!
+# C14 — syntax colors resolve by inheritance, independent of registration order
+
+Property theorems only.  A *history* is `run classes noColor cfg ops`: the constructor
+`ColorsConfig(cfg, no_color=noColor)` (explicit configuration, then `BUILT_IN_CONFIG`) followed by any
+list of operations `add` (`add_new_items`), `reg` (`register_color_conf_component`), `pal`
+(creation of a palette of a class from the table `classes`, which registers the defaults of the class
+and of its `PARENT_PALETTES` on first use) and `get`.  Every theorem is about the state `w` reached by
+an arbitrary history that did not raise (`= .ok w`); `C14.no_error_*` say when a history does not raise.
+
+The *final set of descriptions* of `w` is `descOf w.conf.map`: for every registered id the parsed form
+of the description string that was registered first (`final_set`, `explicit_wins`).
+`Resolves`/`SpecColor` (Model/ColorsConf.lean, part 5) are the declarative reading of the statement.
+-/
+namespace C14
+open ColorsConf Ak
+
+/-- the final set of descriptions held by the configuration of `w` -/
+abbrev finalDescs (w : World) : Id → Option Desc := descOf w.conf.map
+
+/-- the attributes `resolve` has left in the entry of `id` (`none`: unknown or still pending) -/
+def resolvedOf (w : World) (id : Id) : Option Resolved :=
+  ((lookup w.conf.map id).bind (·.res)).map (·.eff)
+
+/-- **Resolution is the declarative one.** After any history (any split of the descriptions between the
+constructor and later registrations, any order, palettes created in between) `get_color(id)` is what
+`SpecColor` reads off the final set of descriptions alone: the formatter of the attributes
+`Resolves` derives along the whole reference chain (own colour/background/modifiers override, `""`
+inherits, `"-"` is the terminal default), the default syntax for an unknown id, no effect when the
+chain does not end in a description without reference. -/
+theorem resolve_spec (classes : List ClassDef) (nc : Bool) (cfg : Cfg) (ops : List Op) (w : World)
+    (h : run classes nc cfg ops = .ok w) (id : Id) :
+    SpecColor nc (finalDescs w) id (getColor w.conf id) := by
+  obtain ⟨hg, hnc⟩ := run_good h
+  have := getColor_spec hg.conf.good id
+  rwa [hnc] at this
+
+/-- the same for the stored attributes: an entry is resolved exactly when its id `Resolves`, with exactly
+those attributes, and its formatter is the formatter of those attributes -/
+theorem resolve_entries (classes : List ClassDef) (nc : Bool) (cfg : Cfg) (ops : List Op) (w : World)
+    (h : run classes nc cfg ops = .ok w) (id : Id) (r : Resolved) :
+    Resolves (finalDescs w) id r ↔
+      ∃ e f, lookup w.conf.map id = some e ∧ e.res = some ⟨r, f⟩ ∧ mkFmt nc r = .ok f := by
+  obtain ⟨hg, hnc⟩ := run_good h
+  constructor
+  · intro hr
+    obtain ⟨e, rr, hl, hres⟩ := hg.conf.good.complete id r hr
+    obtain ⟨h1, h2⟩ := hg.conf.good.sound id e rr hl hres
+    have : rr.eff = r := h1.det hr
+    obtain ⟨eff, f⟩ := rr
+    simp at this; subst this
+    exact ⟨e, f, hl, hres, by rw [← hnc]; exact h2⟩
+  · rintro ⟨e, f, hl, hres, _⟩
+    exact (hg.conf.good.sound id e ⟨r, f⟩ hl hres).1
+
+/-- … and as a function: following the parent chain with enough fuel computes the stored attributes
+(for any amount of fuel above some bound) -/
+theorem resolve_fn (classes : List ClassDef) (nc : Bool) (cfg : Cfg) (ops : List Op) (w : World)
+    (h : run classes nc cfg ops = .ok w) (id : Id) :
+    ∃ n, ∀ k, n ≤ k → resolveSpec (finalDescs w) k id = resolvedOf w id := by
+  obtain ⟨hg, _⟩ := run_good h
+  cases hr : resolvedOf w id with
+  | some r =>
+    have hres : Resolves (finalDescs w) id r := by
+      unfold resolvedOf at hr
+      cases hl : lookup w.conf.map id with
+      | none => simp [hl] at hr
+      | some e =>
+        cases he : e.res with
+        | none => simp [hl, he] at hr
+        | some rr =>
+          simp [hl, he] at hr
+          rw [← hr]
+          exact (hg.conf.good.sound id e rr hl he).1
+    obtain ⟨n, hn⟩ := resolveSpec_complete hres
+    exact ⟨n, fun k hk => resolveSpec_mono_le hk hn⟩
+  | none =>
+    refine ⟨0, fun k _ => ?_⟩
+    cases hk : resolveSpec (finalDescs w) k id with
+    | none => rfl
+    | some r =>
+      obtain ⟨e, rr, hl, hres⟩ := hg.conf.good.complete id r (resolveSpec_sound k id r hk)
+      simp [resolvedOf, hl, hres] at hr
+
+/-- **The final set.** The parsed description of an id is the parsed form of its registered string, and
+for histories without palette creation the registered string is the first one offered in the sequence
+explicit configuration, built-ins, later registrations (first registration wins). -/
+theorem final_set (classes : List ClassDef) (nc : Bool) (cfg : Cfg) (ops : List Op) (w : World)
+    (h : run classes nc cfg ops = .ok w) :
+    (∀ id, finalDescs w id = (strOf w.conf.map id).bind parsed) ∧
+    ((∀ op ∈ ops, op.plain = true) →
+      strOf w.conf.map = dictGet (flatten cfg ++ (flatten Gen.C14.builtin ++ ops.flatMap opItems))) := by
+  obtain ⟨hg, _⟩ := run_good h
+  exact ⟨hg.conf.good.parsed.descOf, fun hpl => run_plain_strs hpl h⟩
+
+/-- two states with the same final set of descriptions give every id the same formatter -/
+theorem same_set_same_colors (classes : List ClassDef) (nc : Bool) (cfg1 cfg2 : Cfg) (ops1 ops2 : List Op)
+    (w1 w2 : World) (h1 : run classes nc cfg1 ops1 = .ok w1) (h2 : run classes nc cfg2 ops2 = .ok w2)
+    (hsame : finalDescs w1 = finalDescs w2) (id : Id) :
+    getColor w1.conf id = getColor w2.conf id := by
+  have a := resolve_spec classes nc cfg1 ops1 w1 h1 id
+  have b := resolve_spec classes nc cfg2 ops2 w2 h2 id
+  rw [hsame] at a
+  exact a.det b
+
+/-- **Order and batching do not matter.** Two histories (no palette creation) that register the same
+items, all with distinct ids (also distinct from the built-in ids), in any order and in any split between
+the constructor argument and later registrations, give every id the same formatter. -/
+theorem order_indep (classes : List ClassDef) (nc : Bool) (cfg1 cfg2 : Cfg) (ops1 ops2 : List Op)
+    (w1 w2 : World) (h1 : run classes nc cfg1 ops1 = .ok w1) (h2 : run classes nc cfg2 ops2 = .ok w2)
+    (hp1 : ∀ op ∈ ops1, op.plain = true) (hp2 : ∀ op ∈ ops2, op.plain = true)
+    (hperm : (flatten cfg1 ++ ops1.flatMap opItems).Perm (flatten cfg2 ++ ops2.flatMap opItems))
+    (hnd : ((flatten cfg1 ++ ops1.flatMap opItems ++ flatten Gen.C14.builtin).map (·.1)).Nodup)
+    (id : Id) :
+    getColor w1.conf id = getColor w2.conf id := by
+  apply same_set_same_colors classes nc cfg1 cfg2 ops1 ops2 w1 w2 h1 h2
+  funext x
+  rw [(final_set classes nc cfg1 ops1 w1 h1).1, (final_set classes nc cfg2 ops2 w2 h2).1,
+    (final_set classes nc cfg1 ops1 w1 h1).2 hp1, (final_set classes nc cfg2 ops2 w2 h2).2 hp2]
+  congr 1
+  have e1 : ∀ (a b c : List (Id × Str)), (a ++ (b ++ c)).Perm (a ++ c ++ b) := by
+    intro a b c
+    rw [List.append_assoc]
+    exact List.Perm.append_left a List.perm_append_comm
+  have hp : (flatten cfg1 ++ (flatten Gen.C14.builtin ++ ops1.flatMap opItems)).Perm
+      (flatten cfg2 ++ (flatten Gen.C14.builtin ++ ops2.flatMap opItems)) :=
+    (e1 _ _ _).trans ((hperm.append_right _).trans (e1 _ _ _).symm)
+  apply dictGet_perm hp
+  exact (((e1 _ _ _).map (·.1)).nodup_iff).mpr hnd
+
+/-- **The explicit configuration wins.** An id described in the constructor's argument keeps that
+description whatever is registered afterwards (built-ins, components, palette classes): the final set
+holds the parsed form of the explicit string. -/
+theorem explicit_wins (classes : List ClassDef) (nc : Bool) (cfg : Cfg) (ops : List Op) (w : World)
+    (h : run classes nc cfg ops = .ok w) (id : Id) (s : Str) (hs : dictGet (flatten cfg) id = some s) :
+    strOf w.conf.map id = some s ∧ ∃ d, parseInitStr s = .ok d ∧ finalDescs w id = some d := by
+  obtain ⟨hg, _⟩ := run_good h
+  unfold run at h
+  cases h1 : newConf nc cfg with
+  | error err => simp [h1] at h
+  | ok c =>
+    simp only [h1] at h
+    obtain ⟨hgc, _, hstr⟩ := newConf_good (classes := classes) h1
+    obtain ⟨_, hl⟩ := runOps_good ops ⟨c, []⟩ w ⟨hgc, fun k s hk => by simp [cacheGet] at hk⟩ h
+    have hc : strOf c.map id = some s := by rw [hstr]; simp [firstStr, hs]
+    have hw : strOf w.conf.map id = some s := hl.strs id s hc
+    refine ⟨hw, ?_⟩
+    unfold strOf at hw
+    cases hlk : lookup w.conf.map id with
+    | none => simp [hlk] at hw
+    | some e =>
+      simp [hlk] at hw
+      exact ⟨e.desc, by rw [← hw]; exact hg.conf.good.parsed id e hlk, by simp [finalDescs, descOf, hlk]⟩
+
+/-- every description, once registered, stays (built-ins win over later components, an earlier component
+wins over a later one) -/
+theorem first_registration_wins (classes : List ClassDef) (nc : Bool) (cfg : Cfg) (ops1 ops2 : List Op)
+    (w1 w2 : World) (h1 : run classes nc cfg ops1 = .ok w1) (h2 : runOps classes w1 ops2 = .ok w2)
+    (id : Id) (s : Str) (hs : strOf w1.conf.map id = some s) : strOf w2.conf.map id = some s := by
+  obtain ⟨hg, _⟩ := run_good h1
+  exact (runOps_good ops2 w1 w2 hg h2).2.strs id s hs
+
+/-- `Dangling dm id`: the reference chain of `id` reaches an id that `dm` does not describe -/
+inductive Dangling (dm : Id → Option Desc) : Id → Prop
+  | here {id : Id} : dm id = none → Dangling dm id
+  | step {id p : Id} {d : Desc} : dm id = some d → d.parent = some p → Dangling dm p → Dangling dm id
+
+theorem Dangling.not_resolvable {dm : Id → Option Desc} {id : Id} (h : Dangling dm id) :
+    ¬ Resolvable dm id := by
+  induction h with
+  | here hn => rintro ⟨r, hr⟩; obtain ⟨d, hd⟩ := hr.known; rw [hn] at hd; cases hd
+  | step hd hp _ ih => exact fun hr => ih (Resolvable.parent hd hp hr)
+
+/-- **Unknown, then known.** A registered id whose chain reaches an unknown id is uncoloured; as soon as
+later registrations complete the chain it gets the formatter of the completed chain; and from then on
+nothing that is registered later changes it. -/
+theorem unknown_then_known (classes : List ClassDef) (nc : Bool) (cfg : Cfg) (ops1 ops2 : List Op)
+    (w1 w2 : World) (h1 : run classes nc cfg ops1 = .ok w1) (h2 : runOps classes w1 ops2 = .ok w2)
+    (id : Id) (hreg : (finalDescs w1 id).isSome) :
+    (Dangling (finalDescs w1) id → getColor w1.conf id = []) ∧
+    (∀ r f, Resolves (finalDescs w2) id r → mkFmt nc r = .ok f → getColor w2.conf id = f) ∧
+    (∀ r, Resolves (finalDescs w1) id r →
+      Resolves (finalDescs w2) id r ∧ getColor w2.conf id = getColor w1.conf id) := by
+  obtain ⟨hg1, hnc1⟩ := run_good h1
+  obtain ⟨hg2, hl⟩ := runOps_good ops2 w1 w2 hg1 h2
+  have hnc2 : w2.conf.noColor = nc := hl.nc.trans hnc1
+  have hreg2 : (finalDescs w2 id).isSome := by
+    cases hl1 : lookup w1.conf.map id with
+    | none => simp [finalDescs, descOf, hl1] at hreg
+    | some e =>
+      have := hl.strs id e.initStr (by simp [strOf, hl1])
+      unfold strOf at this
+      cases hl2 : lookup w2.conf.map id with
+      | none => simp [hl2] at this
+      | some e2 => simp [finalDescs, descOf, hl2]
+  have spec1 := getColor_spec hg1.conf.good id
+  have spec2 := getColor_spec hg2.conf.good id
+  rw [hnc1] at spec1
+  rw [hnc2] at spec2
+  unfold SpecColor at spec1 spec2
+  simp only [finalDescs] at hreg hreg2
+  simp only [hreg, hreg2, if_true] at spec1 spec2
+  have hsub : ∀ x d, finalDescs w1 x = some d → finalDescs w2 x = some d := by
+    intro x d hx
+    have p1 := hg1.conf.good.parsed.descOf x
+    have p2 := hg2.conf.good.parsed.descOf x
+    simp only [finalDescs] at hx ⊢
+    rw [p1] at hx
+    rw [p2]
+    cases hsx : strOf w1.conf.map x with
+    | none => simp [hsx] at hx
+    | some s =>
+      rw [hl.strs x s hsx]
+      rw [hsx] at hx
+      exact hx
+  refine ⟨?_, ?_, ?_⟩
+  · intro hd
+    rcases spec1 with ⟨r, hr, _⟩ | ⟨_, hf⟩
+    · exact absurd ⟨r, hr⟩ hd.not_resolvable
+    · exact hf
+  · intro r f hr hf
+    rcases spec2 with ⟨r', hr', hf'⟩ | ⟨hn, _⟩
+    · rw [hr'.det hr] at hf'
+      rw [hf] at hf'
+      cases hf'; rfl
+    · exact absurd ⟨r, hr⟩ hn
+  · intro r hr
+    have hr2 : Resolves (finalDescs w2) id r := hr.mono hsub
+    refine ⟨hr2, ?_⟩
+    rcases spec1 with ⟨r1, hr1, hf1⟩ | ⟨hn, _⟩
+    · rcases spec2 with ⟨r2', hr2', hf2⟩ | ⟨hn2, _⟩
+      · rw [hr1.det hr] at hf1
+        rw [hr2'.det hr2] at hf2
+        rw [hf1] at hf2
+        exact (Except.ok.inj hf2).symm
+      · exact absurd ⟨r, hr2⟩ hn2
+    · exact absurd ⟨r, hr⟩ hn
+
+/-- **`no_color`.** A configuration created with `no_color` hands out effect-free formatters only, through
+`get_color` and through every palette; and a palette requested with `no_color` is effect-free under any
+configuration. -/
+theorem nocolor (classes : List ClassDef) (nc : Bool) (cfg : Cfg) (ops : List Op) (w : World)
+    (h : run classes nc cfg ops = .ok w) :
+    (nc = true → ∀ id, getColor w.conf id = []) ∧
+    (∀ k pnc w' s, getPalette classes w k pnc = .ok (w', s) → (nc = true ∨ pnc = true) →
+      ∀ x ∈ s, x.2.2 = []) := by
+  obtain ⟨hg, hnc⟩ := run_good h
+  have plain : ∀ (c : Conf), Good c.noColor c.map → c.noColor = true → ∀ id, getColor c id = [] := by
+    intro c hgc hc id
+    have := getColor_spec hgc id
+    unfold SpecColor at this
+    simp only [hc, mkFmt, if_true] at this
+    rcases this with ⟨r, _, hf⟩ | ⟨_, hf⟩
+    · exact (Except.ok.inj hf).symm
+    · exact hf
+  refine ⟨fun hn id => plain w.conf hg.conf.good (hnc.trans hn) id, ?_⟩
+  intro k pnc w' s hp hor x hx
+  obtain ⟨hg', hl, cd, _, hs⟩ := getPalette_spec hg hp
+  cases pnc with
+  | true =>
+    simp at hs
+    subst hs
+    simp [plainSnap] at hx
+    obtain ⟨a, b, _, rfl⟩ := hx
+    rfl
+  | false =>
+    simp at hs
+    subst hs
+    have hn : nc = true := by rcases hor with h | h; exact h; cases h
+    simp [snapOf] at hx
+    obtain ⟨a, b, _, rfl⟩ := hx
+    exact plain w'.conf hg'.conf.good (hl.nc.trans (hnc.trans hn)) b
+
+/-- **Palettes reflect the current state.** Whatever happened before (registrations, earlier palettes of
+the same class, cached or not), a palette obtained now maps each accessor to what `get_color` answers
+for its syntax id in the state right after the call — hence (by `resolve_spec`) to the formatter the
+final set of descriptions determines. -/
+theorem cache_fresh (classes : List ClassDef) (nc : Bool) (cfg : Cfg) (ops : List Op) (w : World)
+    (h : run classes nc cfg ops = .ok w) (k : Nat) (w' : World) (s : Snap)
+    (hp : getPalette classes w k false = .ok (w', s)) :
+    ∃ cd, classes[k]? = some cd ∧ s = snapOf w'.conf cd.accessors ∧
+      ∀ a ∈ cd.accessors, SpecColor nc (finalDescs w') a.2 (getColor w'.conf a.2) := by
+  obtain ⟨hg, hnc⟩ := run_good h
+  obtain ⟨hg', hl, cd, hcd, hs⟩ := getPalette_spec hg hp
+  refine ⟨cd, hcd, by simpa using hs, ?_⟩
+  intro a _
+  have := getColor_spec hg'.conf.good a.2
+  rwa [hl.nc.trans hnc] at this
+
+/-! Non-vacuity: concrete histories evaluated by the kernel.  `B` refers to `A` (registered later) and
+selects the terminal default foreground with `-`; `C` refers to `B`.  Before `A` is known both are
+uncoloured, afterwards `B` = ESC[44;1m (background and bold inherited, foreground default) and
+`C` = ESC[32;44;4m (bold switched off again, underline added). -/
+def exCfg : Cfg :=
+  .dict (.cons ['B'] (.str "A:-".toList) (.cons ['C'] (.str "B:GREEN:no_bold,underline".toList) .nil))
+def exOps : List Op := [.get ['C'], .add [(['A'], "RED/BLUE:bold".toList)]]
+def exOps' : List Op := [.add [(['A'], "RED/BLUE:bold".toList)], .get ['C']]
+def exClasses : List ClassDef :=
+  [⟨[], some (.dict (.cons ['A'] (.str "RED/BLUE:bold".toList) .nil)), [(['t', 'e', 'x', 't'], ['T', 'E', 'X', 'T']), (['a', 'c', 'c'], ['C'])]⟩]
+
+def colorsAfter (r : Except Err World) (ids : List Id) : Option (List Str) :=
+  match r with
+  | .ok w => some (ids.map (getColor w.conf))
+  | .error _ => none
+
+example : colorsAfter (run [] false exCfg []) [['B'], ['C']] = some [[], []] := by decide +kernel
+example : colorsAfter (run [] false exCfg exOps) [['A'], ['B'], ['C'], ['?']] =
+    some [Char.ofNat 27 :: "[31;44;1m".toList, Char.ofNat 27 :: "[44;1m".toList,
+          Char.ofNat 27 :: "[32;44;4m".toList, []] := by decide +kernel
+/-- the same items, all in the constructor's argument, in another order -/
+example : colorsAfter (run [] false
+      (.dict (.cons ['A'] (.str "RED/BLUE:bold".toList) (.cons ['C'] (.str "B:GREEN:no_bold,underline".toList)
+        (.cons ['B'] (.str "A:-".toList) .nil)))) []) [['A'], ['B'], ['C'], ['?']] =
+    colorsAfter (run [] false exCfg exOps) [['A'], ['B'], ['C'], ['?']] := by decide +kernel
+/-- the hypotheses of `order_indep` hold for `exOps` / `exOps'` -/
+example : (flatten exCfg ++ exOps.flatMap opItems).Perm (flatten exCfg ++ exOps'.flatMap opItems) ∧
+    ((flatten exCfg ++ exOps.flatMap opItems ++ flatten Gen.C14.builtin).map (·.1)).Nodup := by
+  decide +kernel
+/-- a palette class whose defaults complete the chain: the palette sees the completed chain -/
+example : (match run exClasses false exCfg [.pal 0 false] with
+    | .ok w => (match getPalette exClasses w 0 false with
+      | .ok (_, s) => some s
+      | .error _ => none)
+    | .error _ => none) =
+    some [(['t', 'e', 'x', 't'], ['T', 'E', 'X', 'T'], []),
+          (['a', 'c', 'c'], ['C'], Char.ofNat 27 :: "[32;44;4m".toList)] := by decide +kernel
+/-- under `no_color` the same history hands out effect-free formatters only -/
+example : colorsAfter (run [] true exCfg exOps) [['A'], ['B'], ['C'], ['?']] = some [[], [], [], []] := by
+  decide +kernel
+/-- a cycle makes the constructor raise `AssertionError` (outside the quantifier of the property) -/
+example : (match run [] false (.dict (.cons ['A'] (.str ['B']) (.cons ['B'] (.str ['A']) .nil))) [] with
+    | .ok _ => none
+    | .error e => some e) = some .assertion := by decide +kernel
+
+end C14
